@@ -85,3 +85,75 @@ Proof. exact (history_invariant ex_ops ex_wf). Qed.
 
 Example ex_history_agrees : m_run (m_empty, m_empty) ex_ops = spec_run ([], []) ex_ops.
 Proof. vm_compute. reflexivity. Qed.
+
+(* ---- the reference itself means what the property text says (spec validation) ------------------ *)
+From Boltons Require Import Proofs.C01_SortSpec Proofs.C01_SpecProps.
+From Coq Require Import Permutation Sorted.
+
+(* Spec.py_sorted, the stand-in for Python's sorted(), is a stable sort: a permutation of its
+   input, ordered by the key (descending when reverse=True), equal keys keep their order *)
+Theorem C01_spec_sorted_perm : forall (key : K * V -> nat) rv l, Permutation (py_sorted key rv l) l.
+Proof. exact (@py_sorted_perm (K * V)). Qed.
+Print Assumptions C01_spec_sorted_perm.
+
+Theorem C01_spec_sorted_ordered : forall (key : K * V -> nat) l,
+  StronglySorted (fun x y => key x <= key y) (py_sorted key false l) /\
+  StronglySorted (fun x y => key y <= key x) (py_sorted key true l).
+Proof. exact (fun key l => conj (py_sorted_asc key l) (py_sorted_desc key l)). Qed.
+Print Assumptions C01_spec_sorted_ordered.
+
+Theorem C01_spec_sorted_stable : forall (key : K * V -> nat) rv l c,
+  filter (fun x => Nat.eqb (key x) c) (py_sorted key rv l) = filter (fun x => Nat.eqb (key x) c) l.
+Proof. exact (@py_sorted_stable (K * V)). Qed.
+Print Assumptions C01_spec_sorted_stable.
+
+(* "equality with a plain mapping is true only when keys and the visible values both match" *)
+Theorem C01_spec_eq_mapping : forall l m,
+  eq_map_spec l m = true <-> (forall k, d_get m k = lookup l k).
+Proof. exact eq_map_spec_iff. Qed.
+Print Assumptions C01_spec_eq_mapping.
+
+(* sortedvalues: same keys in the same order, each key's values are sorted() of its values *)
+Theorem C01_spec_sortedvalues : forall l f rv,
+  map fst (sortedvalues_spec l f rv) = map fst l /\
+  forall k, vals_of (sortedvalues_spec l f rv) k = py_sorted (kf_val f) rv (vals_of l k).
+Proof. exact (fun l f rv => conj (sortedvalues_keys l f rv) (sortedvalues_vals l f rv)). Qed.
+Print Assumptions C01_spec_sortedvalues.
+
+(* single-valued views: every key once, with the value of its most recent pair *)
+Theorem C01_spec_items1 : forall l,
+  NoDup (map fst (items1 l)) /\ forall k v, In (k, v) (items1 l) <-> lookup l k = Some v.
+Proof. exact (fun l => conj (items1_NoDup l) (items1_In l)). Qed.
+Print Assumptions C01_spec_items1.
+
+(* ---- pointer level: the PREV/NEXT surgery implements the list of identified cells ---------------- *)
+From Boltons Require Import Model.C01_Ptr Proofs.C01_Ptr.
+
+(* every sequence of appends of fresh cells and unlinks of present cells (the only list-level
+   operations the model issues) is carried out by the transcribed pointer code on a heap that
+   keeps representing the list: root -> c1 -> ... -> cn -> root, doubly linked *)
+Theorem C01_ptr_simulates : forall ops h l, Rep h l -> ll_valid_run l ops ->
+  exists h', h_run h ops = Ok h' /\ Rep h' (ll_run l ops).
+Proof. exact ptr_simulates. Qed.
+Print Assumptions C01_ptr_simulates.
+
+(* and the forward / backward walks and root[PREV] read that list *)
+Theorem C01_ptr_reads : forall h l fuel, Rep h l -> length l < fuel ->
+  h_forward h fuel = Ok (map cell_triple l) /\
+  h_backward h fuel = Ok (rev (map cell_triple l)) /\
+  h_last h = Ok (match rev l with [] => root | c :: _ => addr c end).
+Proof.
+  exact (fun h l fuel R F => conj (Rep_forward h l fuel R F) (conj (Rep_backward h l fuel R F) (Rep_last h l R))).
+Qed.
+Print Assumptions C01_ptr_reads.
+
+Definition ex_llops : list llop :=
+  [LInsert 0 1 10; LInsert 1 2 11; LInsert 2 1 12; LUnlink 1; LInsert 3 3 13; LUnlink 0].
+
+Example ex_ptr_valid : ll_valid_run [] ex_llops.
+Proof. vm_compute. intuition discriminate. Qed.
+
+Example ex_ptr_walk :
+  (do h <- h_run h_clear ex_llops; h_forward h 10) = Ok [(3, 1, 12); (4, 3, 13)] /\
+  (do h <- h_run h_clear ex_llops; h_backward h 10) = Ok [(4, 3, 13); (3, 1, 12)].
+Proof. vm_compute. split; reflexivity. Qed.
